@@ -200,9 +200,7 @@ Definition is_wide (m : md) : bool := match m with MWide | MUtf16 | MUtf16be => 
 Definition good (w : bool) (v : vk) : bool :=
   match v with
   | KStr _ e _ => negb w || negb (N.eqb e 2)
-  | KRaw (YStr s) => negb w || is_ascii s
-  | KRaw _ => false
-  | KRegex None => false
+  | KRaw s => negb w || is_ascii s
   | _ => true
   end.
 
@@ -211,7 +209,7 @@ Lemma apply_value_good w m f a v :
   match apply_value_mod L m f a v with Ok v' => good w v' = true | SigmaErr _ => True | Crash _ => False end.
 Proof.
   intros Hg Hw.
-  destruct m; destruct v as [sp e s|p| | | |[p|]| | | |]; try destruct p; simpl in *;
+  destruct m; destruct v as [sp e s|p| | | |p| | | |]; simpl in *;
     try discriminate; try exact I; try exact Hg; try reflexivity;
     try (specialize (Hw eq_refl); subst w; simpl in Hg);
     unfold wide_like;
@@ -241,6 +239,9 @@ End Det.
 
 Section Det2.
 Variable L : lib.
+
+Lemma nocrash_ok' {A} (a : A) : nocrash (Ok a).
+Proof. intros x; discriminate. Qed.
 
 Lemma md_lookup_re i m : md_lookup md_table i = Some m -> md_eqb MRe m = str_eqb s_re i.
 Proof.
@@ -288,49 +289,66 @@ Proof.
   - destruct w; simpl; auto. rewrite (H eq_refl). reflexivity.
 Qed.
 
+Definition typed (has_re : bool) (v : yv) : outcome vk :=
+  match v with YStr s => if has_re then Ok (KRaw s) else sigma_type v | _ => sigma_type v end.
+
+Lemma typed_vals_good w has_re l :
+  (w = true -> forallb (fun x => match x with YStr t => is_ascii t | _ => true end) l = true) ->
+  match map_out (typed has_re) l with
+  | Ok vals => Forall (fun v => good w v = true) vals | SigmaErr _ => True | Crash _ => False end.
+Proof.
+  intros Hw.
+  apply (map_out_inv (fun x => In x l) (fun v => good w v = true) (typed has_re)); [|apply Forall_forall; auto].
+  intros a Ha.
+  assert (G : match sigma_type a with Ok v0 => good w v0 = true | SigmaErr _ => True | Crash _ => False end).
+  { apply sigma_type_good. intros E. specialize (Hw E). rewrite forallb_forall in Hw.
+    specialize (Hw a Ha). destruct a; auto. }
+  unfold typed. destruct a; try exact G. destruct has_re; [|exact G]. simpl.
+  destruct w eqn:Ew; simpl; auto. specialize (Hw eq_refl). rewrite forallb_forall in Hw. exact (Hw _ Ha).
+Qed.
+
+Lemma from_mapping_unfold k v :
+  from_mapping L k v =
+  obind (if is_null k then Ok [[]] else if negb (is_str k) then SigmaErr EDetection else py_split_pipe k)
+    (fun parts => obind (md_all (tl parts)) (fun mods =>
+       obind (map_out (typed (existsb (md_eqb MRe) mods)) (val_list v)) (fun vals =>
+         apply_mods L mods (match parts with [] :: _ => true | [] => true | _ => false end) false vals))).
+Proof. reflexivity. Qed.
+
+Lemma md_all_nocrash ids : nocrash (md_all ids).
+Proof.
+  induction ids as [|i r IH]; cbn [md_all]; [apply nocrash_ok'|].
+  destruct (md_lookup md_table i); [|intros x; discriminate].
+  apply obind_nocrash; [exact IH | intros; intros x; discriminate].
+Qed.
+
 Lemma from_mapping_nocrash k v : item_ok k v = true -> nocrash (from_mapping L k v).
 Proof.
-  intros Hok. unfold from_mapping.
-  destruct k as [| | | |s| | |]; simpl; try (intros x; discriminate).
+  intros Hok. rewrite from_mapping_unfold.
+  destruct k as [| | | |s| | |]; cbn [is_null is_str negb obind py_split_pipe]; try (intros x; discriminate).
   - (* keyword item: no modifiers *)
-    pose proof (map_out_inv (fun _ => True) (fun v => good false v = true) sigma_type
-                  (fun a _ => sigma_type_good false a (fun H => ltac:(discriminate))) (val_list v)) as M.
-    fold (val_list v).
-    destruct (map_out sigma_type (val_list v)) as [vals|e|c]; simpl.
+    cbn [tl md_all obind existsb].
+    pose proof (typed_vals_good false false (val_list v) ltac:(discriminate)) as M.
+    destruct (map_out (typed false) (val_list v)) as [vals|e|c]; cbn [obind].
     + intros x; discriminate.
     + intros x; discriminate.
-    + exfalso. apply M. clear. induction (val_list v); constructor; auto.
+    + destruct M.
   - (* key with optional modifier chain *)
-    unfold item_ok in Hok. apply andb_true_iff in Hok. destruct Hok as [Hre Hwide]. fold wide_ids in Hwide.
+    unfold item_ok in Hok. fold wide_ids in Hok. rename Hok into Hwide.
     change (@tl (list char)) with (@tl str) in *.
+    pose proof (md_all_nocrash (tl (split c_pipe s))) as NC.
     destruct (md_all (tl (split c_pipe s))) as [mods|e|c] eqn:Em; cbn [obind].
     2: { intros x; discriminate. }
-    2: { (* md_all never crashes *)
-         exfalso. clear -Em. revert c Em. induction (tl (split c_pipe s)) as [|i r IH]; intros c Em; cbn [md_all] in Em; [discriminate|].
-         destruct (md_lookup md_table i); [|discriminate].
-         destruct (md_all r) as [?|?|c'] eqn:E; cbn [obind] in Em; try discriminate. eapply IH. reflexivity. }
-    destruct (md_all_facts _ _ Em) as [F1 F2]. fold (val_list v).
+    2: { exfalso. exact (NC c eq_refl). }
+    destruct (md_all_facts _ _ Em) as [F1 F2].
     set (w := existsb is_wide mods).
     assert (Hw : w = true -> forallb (fun x => match x with YStr t => is_ascii t | _ => true end) (val_list v) = true).
     { intros E. unfold w in E. rewrite F2 in E. rewrite E in Hwide. exact Hwide. }
-    rewrite F1.
-    destruct (in_strs s_re (tl (split c_pipe s))) eqn:Ere; simpl.
-    + (* `re`: the values are wrapped unchecked; all of them are strings *)
-      apply (apply_mods_nocrash L w); [|intros E; exact E].
-      apply Forall_forall. intros x Hx. apply in_map_iff in Hx. destruct Hx as [y [<- Hy]].
-      rewrite forallb_forall in Hre. specialize (Hre y Hy). destruct y; try discriminate. simpl.
-      destruct w eqn:Ew; simpl; auto.
-      specialize (Hw eq_refl). rewrite forallb_forall in Hw. exact (Hw _ Hy).
-    + pose proof (map_out_inv (fun x => In x (val_list v)) (fun v => good w v = true) sigma_type) as M.
-      assert (Hs : forall a, In a (val_list v) ->
-                 match sigma_type a with Ok v0 => good w v0 = true | SigmaErr _ => True | Crash _ => False end).
-      { intros a Ha. apply sigma_type_good. intros E. specialize (Hw E). rewrite forallb_forall in Hw.
-        specialize (Hw a Ha). destruct a; auto. }
-      specialize (M Hs (val_list v) ltac:(apply Forall_forall; auto)).
-      destruct (map_out sigma_type (val_list v)) as [vals|e|c]; simpl.
-      * apply (apply_mods_nocrash L w); [exact M | intros E; exact E].
-      * intros x; discriminate.
-      * destruct M.
+    pose proof (typed_vals_good w (existsb (md_eqb MRe) mods) (val_list v) Hw) as M.
+    destruct (map_out (typed (existsb (md_eqb MRe) mods)) (val_list v)) as [vals|e|c]; cbn [obind].
+    + apply (apply_mods_nocrash L w); [exact M | intros E; exact E].
+    + intros x; discriminate.
+    + destruct M.
 Qed.
 End Det2.
 
